@@ -7,7 +7,8 @@
     [lower : str -> str] (nothing is assumed about char::is_uppercase / str::to_lowercase),
     all names (any code points, any length) and all [accept] closures. *)
 From Coq Require Import String.
-Require Import Norad.Model.Base Norad.Model.FileName Norad.Proofs.FileNameP.
+Require Import Norad.Model.Base Norad.Model.FileName Norad.Proofs.FileNameP Norad.Model.Layer Norad.Proofs.LayerP.
+From stdpp Require Import gmap.
 Open Scope N_scope.
 
 (** The function never returns a candidate its caller rejected. *)
@@ -149,3 +150,42 @@ Example C07_wrappers_nonvacuous :
 Proof.
   split; [split; [discriminate|repeat constructor]|]. split; vm_compute; reflexivity.
 Qed.
+
+(** ------------------------------------------------------------------------------------------
+    Container level (model: Model/Layer.v, see Props/C06.v for the invariant).
+
+    Within one layer the assigned glif names, and within one font the directories of the
+    non-default layers, are pairwise distinct even when compared through [lower]; all layer
+    directories are distinct as they are.  After ANY history of operations on a new font (or
+    on any font that satisfies the invariant, e.g. one loaded from a well-formed tree) that
+    does not use the raw entry access and did not panic. *)
+Theorem C07_distinct : forall is_upper lower ops s s',
+  Inv lower s -> clean is_upper lower s ops -> run is_upper lower s ops = Some s' -> distinct_paths lower s'.
+Proof. exact distinct_over_histories. Qed.
+Theorem C07_distinct_new_font : forall is_upper lower ops s',
+  clean is_upper lower init ops -> run is_upper lower init ops = Some s' -> distinct_paths lower s'.
+Proof. intros iu lo ops s' Hc Hr. exact (distinct_over_histories iu lo ops init s' (inv_init lo) Hc Hr). Qed.
+Theorem C07_distinct_loaded : forall lower d s,
+  wf_disk lower d -> load lower d = Some s -> distinct_paths lower s.
+Proof. intros lo d s Hw Hl. exact (inv_distinct lo s (inv_loaded lo d s Hw Hl)). Qed.
+Example C07_distinct_nonvacuous :
+  let ops := [InsertGlyph DEFAULT_LAYER_NAME nA; InsertGlyph DEFAULT_LAYER_NAME [97;95]%N; NewLayer nA; NewLayer [97;95]%N] in
+  exists s', run ascii_is_upper ascii_lower init ops = Some s' /\
+    glyph_path s' DEFAULT_LAYER_NAME nA = Some (s2l "A_.glif"%string) /\
+    glyph_path s' DEFAULT_LAYER_NAME [97;95]%N = Some (s2l "a_01.glif"%string) /\
+    layer_dir s' nA = Some (s2l "glyphs.A_"%string) /\ layer_dir s' [97;95]%N = Some (s2l "glyphs.a_01"%string).
+Proof. exact distinct_example. Qed.
+
+(** Entries that stay in a container keep their file name: an operation changes the file name
+    of glyph [g] in layer [ln] (the directory of layer [ln]) only if it names them, clears or
+    filters their container, or removes / renames / overwrites the layer. *)
+Theorem C07_stable_glyph : forall is_upper lower s o ln g q,
+  Inv lower s -> (forall site, (step is_upper lower s o).2 <> OPanic site) ->
+  glyph_path s ln g = Some q -> ~ touches_glyph o ln g ->
+  glyph_path (step is_upper lower s o).1 ln g = Some q.
+Proof. exact stable_glyph. Qed.
+Theorem C07_stable_layer : forall is_upper lower s o ln p,
+  Inv lower s -> (forall site, (step is_upper lower s o).2 <> OPanic site) ->
+  layer_dir s ln = Some p -> ~ touches_layer o ln ->
+  layer_dir (step is_upper lower s o).1 ln = Some p.
+Proof. exact stable_layer. Qed.
